@@ -38,13 +38,13 @@ fn strategy(t: Tier) -> BoxedStrategy<Case> {
     let len = prop_oneof![2 => 0u16..3, 4 => 3u16..60, 2 => 60u16..400];
     let item = prop_oneof![
         5 => (lab_any_valid(), len.clone(), prop_oneof![4 => Just(0u8), 2 => Just(1u8), 2 => Just(2u8), 1 => Just(3u8), 1 => Just(4u8)]).prop_map(|(lab, len, kind)| Item::Complete { lab, len, kind }),
-        3 => (0u8..6, lab_any_valid(), prop_oneof![1 => Just(0u16), 2 => 4u16..400], 0u8..40, any::<bool>()).prop_map(|(id, lab, len, first_payload, ext)| Item::Start { id, lab, len, first_payload, ext }),
-        5 => (any::<u16>(), prop_oneof![2 => 0u16..30, 1 => 30u16..500], prop_oneof![6 => Just(false), 1 => Just(true)]).prop_map(|(k, n, corrupt)| Item::Cont { k, n, corrupt }),
+        3 => (0u8..6, lab_any_valid(), prop_oneof![2 => Just(0u16), 5 => 4u16..400, 1 => 4000u16..9000], 0u8..40, any::<bool>()).prop_map(|(id, lab, len, first_payload, ext)| Item::Start { id, lab, len, first_payload, ext }),
+        5 => (any::<u16>(), prop_oneof![4 => 0u16..30, 2 => 30u16..500, 1 => 4070u16..4110, 1 => 500u16..6000], prop_oneof![6 => Just(false), 1 => Just(true)]).prop_map(|(k, n, corrupt)| Item::Cont { k, n, corrupt }),
         1 => (0u8..6, any::<bool>()).prop_map(|(id, end)| Item::Orphan { id, end }),
     ];
     bx((
         reuse_cfg(),
-        prop_oneof![3 => Just(400u16), 1 => 0u16..100],
+        prop_oneof![3 => Just(10000u16), 1 => 0u16..100],
         prop_oneof![4 => Just(4u8), 1 => 0u8..4],
         prop_oneof![3 => Just(true), 1 => Just(false)],
         prop::collection::vec((prop_oneof![5 => Just(false), 1 => Just(true)], item), 1..t.pick(12, 24)),
